@@ -94,7 +94,8 @@ def compare_ast(l_ast, r_ast):
 
             if isinstance(left_field, ast.AST) or isinstance(right_field, ast.AST):
                 compare_ast(left_field, right_field)
-            elif left_field != right_field:
+            elif left_field != right_field or (isinstance(l_ast, (ast.Constant, ast.Num)) and type(left_field) is not type(right_field)):
+                # 1, 1.0 and True compare equal but are different constants
                 raise CompareError(
                     l_ast,
                     r_ast,
